@@ -198,7 +198,7 @@ template <class G> class Explorer {
             G d(0);
             d = g2;
             ++sink.evaluated;
-            if (!(c == g2) || !(g2 == c) || !(d == g2) || (c != g2) || keyOf(c, true) != keyOf(g2, true) || keyOf(d, true) != keyOf(g2, true))
+            if (!(c == g2) || !(g2 == c) || !(d == g2) || (c != g2) || keyOf(c, true, true) != keyOf(g2, true, true) || keyOf(d, true, true) != keyOf(g2, true, true))
                 sink.fail("eq.copy", "copy-constructed / copy-assigned graph differs from its source " + m2.str());
         }
         if (cfg.editNeighbours && clean && sink.wants("eq.neighbour")) {
